@@ -230,8 +230,8 @@ def instances(tier):
         out.append({'func': 'h_inverse_linear', 'params': {'ns': ns, 'r': r, 'kind': kind}})
     for n, order in ([(2, 1), (3, 1), (3, 2), (4, 1)] if quick else [(2, 1), (3, 1), (3, 2), (4, 1), (4, 2), (5, 1), (7, 1)]):
         out.append({'func': 'h_diff_matrix', 'params': {'n': n, 'order': order}})
-    for ns, sb in ([([3], True), ([2, 3], True), ([3], False), ([2, 2], False)] if quick else
-                   [([3], True), ([2, 3], True), ([3], False), ([2, 2], False), ([4, 3], True), ([3, 3], False)]):
+    for ns, sb in ([([3], True), ([2, 3], True), ([3], False), ([2, 2], False), ([2, 3, 2], True)] if quick else
+                   [([3], True), ([2, 3], True), ([3], False), ([2, 2], False), ([2, 3, 2], True), ([4, 3], True), ([3, 3], False), ([3, 2, 4], True)]):
         out.append({'func': 'h_full_vs_tt', 'params': {'ns': ns, 'sym_box': sb}})
     for n in ([2, 3] if quick else [2, 3, 4]):
         out.append({'func': 'h_general', 'params': {'n': n}})
